@@ -539,6 +539,7 @@ def execute(case, perm=None, parallel=(), sim_seed=None, tail_ops=()):
     run = harness.Run()
     harness.begin_run(0.0, seed=case.get('seed', 0), simmp_seed=sim_seed)
     register_updaters()
+    store = comp = None
     try:
         processes, topology = build(case, perm, parallel)
         init = decode_value(copy.deepcopy(case.get('init') or {}))
@@ -598,8 +599,10 @@ def execute(case, perm=None, parallel=(), sim_seed=None, tail_ops=()):
                 harness.drive(run, eng, [list(o) for o in tail_ops], unit, lambda op: 2000000,
                               first_index=len(case['ops']))
                 if run.extra.get('drop'):
+                    # nothing of ours may keep the engine's objects alive
                     eng = None
-                    processes = None
+                    processes = topology = None
+                    store = comp = None
                     harness.drop_engine(run)
     finally:
         harness.end_run()
